@@ -553,6 +553,10 @@ fn deep_doubling_project(seed: u64, rng: &mut Rng) -> Project {
 
 pub fn synthetic_project(seed: u64) -> Project {
     let mut rng = Rng::new(seed ^ 0x5EED_0F_7E57);
+    // one synthetic project in three comes from the recursive grammar (grammar.rs)
+    if rng.chance(1, 3) {
+        return crate::grammar::grammar_project(rng.next());
+    }
     if rng.chance(1, 40) {
         return barrel_mesh_project(seed, &mut rng);
     }
